@@ -224,6 +224,10 @@ impl ColumnBuffer {
     }
 
     fn push_present(&mut self, new_present: Option<&[u8]>, count: usize) {
+        if self.present.is_none() && new_present.is_some() {
+            // First null map for this column: all values pushed so far are present.
+            self.init_present();
+        }
         if let Some(all_present) = self.present.as_mut() {
             if let Some(new_present) = new_present {
                 for i in 0..count {
